@@ -1,9 +1,340 @@
-//! STUB component for cedt -- to be written
+//! component 20: CEDT.  Case vocabulary documented in coq/theories/Spec/CedtS.v.
 use crate::sx::*;
+use crate::tcommon::*;
 use crate::Emit;
+use acpi_tables::cedt::*;
 
-pub fn run(_case: &Sx, _out: &mut Vec<Ev>) {
-    panic!("harness: component cedt not implemented")
+fn version(n: u64) -> CxlVersion {
+    match n {
+        0 => CxlVersion::Cxl1_1,
+        1 => CxlVersion::Cxl2,
+        _ => panic!("harness: bad CxlVersion"),
+    }
 }
 
-pub fn gen(_tier: &str, _rng: &mut Rng, _emit: &mut Emit) {}
+fn arithmetic(n: u64) -> InterleaveArithmetic {
+    match n {
+        0 => InterleaveArithmetic::Modulo,
+        1 => InterleaveArithmetic::ModuloXor,
+        _ => panic!("harness: bad InterleaveArithmetic"),
+    }
+}
+
+fn granularity(n: u64) -> InterleaveGranularity {
+    match n {
+        0 => InterleaveGranularity::Granularity256b,
+        1 => InterleaveGranularity::Granularity512b,
+        2 => InterleaveGranularity::Granularity1kb,
+        3 => InterleaveGranularity::Granularity2kb,
+        4 => InterleaveGranularity::Granularity4kb,
+        5 => InterleaveGranularity::Granularity8kb,
+        6 => InterleaveGranularity::Granularity16kb,
+        _ => panic!("harness: bad InterleaveGranularity"),
+    }
+}
+
+/// numbered by the encoded value (ENIW)
+fn ways(n: u64) -> InterleaveWays {
+    match n {
+        0 => InterleaveWays::Ways1,
+        1 => InterleaveWays::Ways2,
+        2 => InterleaveWays::Ways4,
+        3 => InterleaveWays::Ways8,
+        4 => InterleaveWays::Ways16,
+        8 => InterleaveWays::Ways3,
+        9 => InterleaveWays::Ways6,
+        10 => InterleaveWays::Ways12,
+        _ => panic!("harness: bad InterleaveWays"),
+    }
+}
+
+fn protocol(n: u64) -> ProtocolType {
+    match n {
+        0 => ProtocolType::CxlIo,
+        1 => ProtocolType::CxlMem,
+        _ => panic!("harness: bad ProtocolType"),
+    }
+}
+
+pub fn run(case: &Sx, out: &mut Vec<Ev>) {
+    let c = case.list();
+    let ctor = c[0].list();
+    let (oem, tbl, rev) = hdr_args(ctor);
+    let mut t = CEDT::new(oem, tbl, rev);
+    for op in &c[1..] {
+        if let Sx::A(_) = op {
+            out.push(image(&t));
+            continue;
+        }
+        let o = op.list();
+        let n = |i: usize| o[i].num();
+        match n(0) {
+            1 => t.add_host_bridge(CxlHostBridge::new(n(1) as u32, version(n(2)), n(3))),
+            2 => {
+                let mut fm = CxlFixedMemory::new(n(1), n(2), arithmetic(n(3)), granularity(n(4)), ways(n(5)), n(6) as u16);
+                for b in o[7].list() {
+                    fm = match b.list()[0].num() {
+                        1 => fm.cxl_type_2_memory(),
+                        2 => fm.cxl_type_3_memory(),
+                        3 => fm.volatile(),
+                        4 => fm.persistent(),
+                        5 => fm.fixed_configuration(),
+                        _ => panic!("harness: bad restriction builder"),
+                    };
+                }
+                for tg in o[8].list() {
+                    fm.add_target(tg.arr::<4>());
+                }
+                t.add_fixed_memory(fm)
+            }
+            3 => {
+                let mut x = XorInterleaveMath::new(granularity(n(1)));
+                for m in o[2].list() {
+                    x.add_xormap(m.num());
+                }
+                t.add_xor_interleave_math(x)
+            }
+            4 => t.add_port_association(PortAssociation::new(n(1) as u16, n(2) as u8, n(3) as u8, n(4) as u8, protocol(n(5)), n(6))),
+            _ => panic!("harness: bad cedt op"),
+        }
+        out.push(Ev::Num(0));
+    }
+}
+
+// ------------------------------------------------------------------ generators
+
+const WAYS: [(u64, u64); 8] = [(0, 1), (1, 2), (2, 4), (3, 8), (4, 16), (8, 3), (9, 6), (10, 12)];
+
+fn builders(ids: &[u64]) -> Sx {
+    l(ids.iter().map(|b| l(vec![a(*b)])).collect())
+}
+
+fn shuffle(rng: &mut Rng, v: &mut Vec<u64>) {
+    for i in (1..v.len()).rev() {
+        let j = rng.below(i as u64 + 1) as usize;
+        v.swap(i, j);
+    }
+}
+
+fn rand_builders(rng: &mut Rng) -> Vec<u64> {
+    let k = rng.below(8);
+    (0..k).map(|_| rng.range(1, 5)).collect()
+}
+
+fn cfmws_op(rng: &mut Rng, ways_code: u64, ntargets: u64, bl: &[u64]) -> Sx {
+    let targets = l((0..ntargets).map(|_| blist(&rng.bytes(4))).collect());
+    l(vec![a(2), a(rng.val(64)), a(rng.val(64)), a(rng.below(2)), a(rng.below(7)), a(ways_code), a(rng.val(16)), builders(bl), targets])
+}
+
+fn cxims_op(rng: &mut Rng, n: u64) -> Sx {
+    l(vec![a(3), a(rng.below(7)), l((0..n).map(|_| a(rng.val(64))).collect())])
+}
+
+fn rdpas_op(rng: &mut Rng, dev: u64, func: u64) -> Sx {
+    l(vec![a(4), a(rng.val(16)), a(rng.val(8)), a(dev), a(func), a(rng.below(2)), a(rng.val(64))])
+}
+
+pub fn rand_op(rng: &mut Rng, kind: u64) -> Sx {
+    match kind {
+        1 => l(vec![a(1), a(rng.val(32)), a(rng.below(2)), a(rng.val(64))]),
+        2 => {
+            let (code, n) = *rng.pick(&WAYS);
+            // rarely a target count that does not match the number of ways (the serialiser refuses)
+            let nt = if rng.chance(1, 40) { rng.below(18) } else { n };
+            let bl = rand_builders(rng);
+            cfmws_op(rng, code, nt, &bl)
+        }
+        3 => {
+            let n = if rng.chance(1, 6) { rng.below(71) } else { rng.below(7) };
+            cxims_op(rng, n)
+        }
+        _ => {
+            let dev = if rng.chance(1, 60) { rng.range(32, 255) } else { rng.below(32) };
+            let func = if rng.chance(1, 60) { rng.range(8, 255) } else { rng.below(8) };
+            rdpas_op(rng, dev, func)
+        }
+    }
+}
+
+fn rand_ctor(rng: &mut Rng) -> Sx {
+    l(rand_hdr(rng))
+}
+
+fn emit_ops(rng: &mut Rng, emit: &mut Emit, ops: Vec<Sx>) {
+    let c = rand_ctor(rng);
+    emit.case(20, history(rng, c, ops));
+}
+
+fn permutations(items: &[u64]) -> Vec<Vec<u64>> {
+    if items.len() <= 1 {
+        return vec![items.to_vec()];
+    }
+    let mut out = Vec::new();
+    for i in 0..items.len() {
+        let mut rest = items.to_vec();
+        let x = rest.remove(i);
+        for mut p in permutations(&rest) {
+            p.insert(0, x);
+            out.push(p);
+        }
+    }
+    out
+}
+
+pub fn gen(tier: &str, rng: &mut Rng, emit: &mut Emit) {
+    let kinds: Vec<u64> = (1..=4).collect();
+    // empty history
+    for _ in 0..4 {
+        emit_ops(rng, emit, vec![]);
+    }
+    // each structure kind alone, and all ordered pairs
+    for k in &kinds {
+        for _ in 0..8 {
+            let op = rand_op(rng, *k);
+            emit_ops(rng, emit, vec![op]);
+        }
+    }
+    for k1 in &kinds {
+        for k2 in &kinds {
+            let ops = vec![rand_op(rng, *k1), rand_op(rng, *k2)];
+            emit_ops(rng, emit, ops);
+        }
+    }
+    // CHBS: both versions with boundary values
+    for ver in 0..2u64 {
+        for (uid, base) in [(0u64, 0u64), (u32::MAX as u64, u64::MAX), (1, 1)] {
+            emit_ops(rng, emit, vec![l(vec![a(1), a(uid), a(ver), a(base)])]);
+        }
+    }
+    // CFMWS: all 8 InterleaveWays with matching and non-matching target counts
+    for (code, n) in WAYS {
+        let mut counts = vec![n, 0, n - 1, n + 1, 2 * n, 17];
+        counts.push(rng.below(20));
+        counts.dedup();
+        for nt in counts {
+            let bl = rand_builders(rng);
+            let op = cfmws_op(rng, code, nt, &bl);
+            emit_ops(rng, emit, vec![op]);
+        }
+    }
+    // CFMWS: every enum value of arithmetic x granularity
+    for ar in 0..2u64 {
+        for g in 0..7u64 {
+            let t = blist(&rng.bytes(4));
+            let op = l(vec![a(2), a(rng.val(64)), a(rng.val(64)), a(ar), a(g), a(0), a(rng.val(16)), builders(&[]), l(vec![t])]);
+            emit_ops(rng, emit, vec![op]);
+        }
+    }
+    // CFMWS restriction builders: every subset, in canonical, reversed and shuffled order, and with repetitions
+    for mask in 0..32u64 {
+        let subset: Vec<u64> = (1..=5).filter(|b| mask & (1 << (b - 1)) != 0).collect();
+        let mut variants: Vec<Vec<u64>> = vec![subset.clone(), subset.iter().rev().cloned().collect()];
+        for _ in 0..2 {
+            let mut s = subset.clone();
+            shuffle(rng, &mut s);
+            variants.push(s);
+        }
+        for _ in 0..2 {
+            // each chosen builder 1..3 times, shuffled
+            let mut s: Vec<u64> = Vec::new();
+            for b in &subset {
+                for _ in 0..rng.range(1, 3) {
+                    s.push(*b);
+                }
+            }
+            shuffle(rng, &mut s);
+            variants.push(s);
+        }
+        for v in variants {
+            let (code, n) = *rng.pick(&WAYS);
+            let op = cfmws_op(rng, code, n, &v);
+            emit_ops(rng, emit, vec![op]);
+        }
+    }
+    // every order of the five builders
+    for p in permutations(&[1, 2, 3, 4, 5]) {
+        let op = cfmws_op(rng, 0, 1, &p);
+        emit_ops(rng, emit, vec![op]);
+    }
+    // every order of every pair and triple
+    for x in 1..=5u64 {
+        for y in 1..=5u64 {
+            let op = cfmws_op(rng, 1, 2, &[x, y]);
+            emit_ops(rng, emit, vec![op]);
+            for z in 1..=5u64 {
+                let op = cfmws_op(rng, 8, 3, &[x, y, z]);
+                emit_ops(rng, emit, vec![op]);
+            }
+        }
+    }
+    // CXIMS: 0..70 xormaps, every granularity
+    for n in 0..=70u64 {
+        let op = cxims_op(rng, n);
+        emit_ops(rng, emit, vec![op]);
+    }
+    for g in 0..7u64 {
+        let op = l(vec![a(3), a(g), l(vec![a(rng.val(64)), a(rng.val(64))])]);
+        emit_ops(rng, emit, vec![op]);
+    }
+    for n in [200u64, 254, 255, 256, 257] {
+        let op = cxims_op(rng, n);
+        emit_ops(rng, emit, vec![op]);
+    }
+    // RDPAS: PCI device boundary values of the asserting constructor, both protocols
+    for (dev, func) in [(0u64, 0u64), (31, 7), (32, 0), (0, 8), (31, 8), (255, 255), (32, 7), (1, 1), (16, 4)] {
+        let op = rdpas_op(rng, dev, func);
+        emit_ops(rng, emit, vec![op]);
+    }
+    for bus in [0u64, 1, 128, 255] {
+        for proto in 0..2u64 {
+            let op = l(vec![a(4), a(rng.val(16)), a(bus), a(rng.below(32)), a(rng.below(8)), a(proto), a(rng.val(64))]);
+            emit_ops(rng, emit, vec![op]);
+        }
+    }
+    // all interleavings of the 4 kinds for histories of length 3
+    for code in 0..64u64 {
+        let ops = vec![rand_op(rng, code % 4 + 1), rand_op(rng, (code / 4) % 4 + 1), rand_op(rng, code / 16 + 1)];
+        emit_ops(rng, emit, ops);
+    }
+    // homogeneous runs of 300 of the smallest entries of each kind
+    {
+        let ops = (0..300).map(|_| rand_op(rng, 1)).collect();
+        emit_ops(rng, emit, ops);
+        let ops = (0..300).map(|_| { let bl = rand_builders(rng); cfmws_op(rng, 0, 1, &bl) }).collect();
+        emit_ops(rng, emit, ops);
+        let ops = (0..300).map(|_| cxims_op(rng, 0)).collect();
+        emit_ops(rng, emit, ops);
+        let ops = (0..300).map(|_| { let d = rng.below(32); let f = rng.below(8); rdpas_op(rng, d, f) }).collect();
+        emit_ops(rng, emit, ops);
+    }
+    // runs crossing 65535 -> 65536 bytes: 2100 CHBS (32 bytes), 3900 RDPAS (17 bytes, odd sizes)
+    {
+        let ops = (0..2100).map(|_| rand_op(rng, 1)).collect();
+        emit_ops(rng, emit, ops);
+        let ops = (0..3900).map(|_| { let d = rng.below(32); let f = rng.below(8); rdpas_op(rng, d, f) }).collect();
+        emit_ops(rng, emit, ops);
+    }
+    // random mixed histories
+    let n = if tier == "thorough" { 3000 } else { 200 };
+    for _ in 0..n {
+        let len = match rng.below(3) {
+            0 => rng.range(1, 6),
+            1 => rng.range(1, 24),
+            _ => rng.range(25, 120),
+        };
+        let ops = (0..len).map(|_| { let k = rng.range(1, 4); rand_op(rng, k) }).collect();
+        emit_ops(rng, emit, ops);
+    }
+}
+
+/// C18: CXIMS bitmap counts at the one-byte field maximum, one beyond and far beyond; 8191 / 8192 bitmaps are where the
+/// 16-bit record length would wrap (SPEC_NOTES section D, cedt.rs)
+pub fn gen18(_tier: &str, rng: &mut Rng, emit: &mut Emit) {
+    for n in [254u64, 255, 256, 257, 300, 511, 512, 8190, 8191, 8192, 8193] {
+        let op = cxims_op(rng, n);
+        emit_ops(rng, emit, vec![op.clone()]);
+        let first = rand_op(rng, 1);
+        let last = cxims_op(rng, 1);
+        emit_ops(rng, emit, vec![first, op, last]);
+    }
+}
